@@ -11,6 +11,7 @@ mod c25;
 mod c26;
 mod c28;
 mod c29;
+mod c30;
 mod c34;
 
 fn main() {
@@ -55,6 +56,7 @@ fn main() {
         "c26-selfcheck" => c26::selfcheck(rest),
         "c28-run" => c28::run(rest),
         "c29-replay" => c29::replay(rest),
+        "c30-replay" => c30::replay(rest),
         "c34-replay" => c34::replay(rest),
         _ => {
             eprintln!("unknown command {cmd}");
